@@ -66,6 +66,7 @@ int LLVMFuzzerTestOneInput(const uint8_t *data, size_t size)
   if (size < 2) return 0;
   op = data[0]; nl = data[1];
   if (nl > size - 2) nl = (unsigned) (size - 2);
+  FZ_FRESH(sa); FZ_FRESH(glue); if (ia.ix) free(ia.ix); ia.ix = 0; ia.len = 0; ia.a = 0;
   if (!stralloc_copyb(&sa, (char *) data + 2, nl)) abort();
   scr = data + 2 + nl; scrlen = size - 2 - nl; scroff = 0;
   /* a fresh process: no answer buffer yet, res_query as the lookup function */
